@@ -36,7 +36,7 @@ View == <<T, prog, pc, loc, fl>>
 G == 1..NG
 Ids == 1..Len(T)
 Shared == [tracked |-> TRUE, spent |-> FALSE, wired |-> FALSE, args |-> <<>>, hasGrad |-> FALSE, owner |-> 0]
-InitHeap == <<Shared, [Shared EXCEPT !.tracked = FALSE]>>     \* 1: shared tracked parameter, 2: shared untracked tensor
+InitHeap == <<Shared, [Shared EXCEPT !.tracked = FALSE], [Shared EXCEPT !.tracked = FALSE]>>     \* 1: shared tracked parameter, 2: shared untracked tensor (from a constructor), 3: shared untracked RESULT of an operation, never used before
 
 (* a slot <<"s", i>> is shared tensor i; <<"l", j>> is the j-th tensor this goroutine created *)
 Resolve(g, slot) == IF slot[1] = "s" THEN slot[2] ELSE loc[g][slot[2]]
@@ -146,6 +146,6 @@ SeqView(p) == LET s == SeqRun(p, 1, InitHeap, <<>>)
 Finished == \A g \in G : ~Running(g)
 Deterministic == Finished => \A g \in G : LocalView(g) = SeqView(prog[g])
 (* the shared tensors are never written under the proviso *)
-SharedUntouched == Proviso => T[1] = InitHeap[1] /\ T[2] = InitHeap[2]
+SharedUntouched == Proviso => T[1] = InitHeap[1] /\ T[2] = InitHeap[2] /\ T[3] = InitHeap[3]
 
 =============================================================================
